@@ -23,7 +23,6 @@ STATIC = ["solve_reduce", "solve_noreduce", "solve_is_solution", "apply_both_sid
     "refuses_absent_vector", "solves_present_vector"]
 
 PREAMBLE = vtree.TV_PREAMBLE + """
-Ltac v3_goal := cbv [mixed vsub vneg dot cross vadd vscale vzero Vec3.vx Vec3.vy Vec3.vz].
 Ltac nz_one :=
   match goal with H : ?h <> 0 |- _ => apply H; v3_goal; first [ assumption | timeout 20 (solve [nsatz]) ] end.
 Ltac nz_from P :=
